@@ -914,12 +914,16 @@ static int apply_patch(cJSON *object, const cJSON *patch, const cJSON_bool case_
             cJSON_free(value);
             value = NULL;
 
-            /* the string "value" isn't needed */
+            /* the string "value" isn't needed (and isn't ours if it is constant) */
             if (object->string != NULL)
             {
-                cJSON_free(object->string);
+                if (!(object->type & cJSON_StringIsConst))
+                {
+                    cJSON_free(object->string);
+                }
                 object->string = NULL;
             }
+            object->type &= ~cJSON_StringIsConst;
 
             status = 0;
             goto cleanup;
@@ -1016,12 +1020,16 @@ static int apply_patch(cJSON *object, const cJSON *patch, const cJSON_bool case_
         cJSON_free(value);
         value = NULL;
 
-        /* the root has no name */
+        /* the root has no name (a constant name isn't ours to release) */
         if (object->string != NULL)
         {
-            cJSON_free(object->string);
+            if (!(object->type & cJSON_StringIsConst))
+            {
+                cJSON_free(object->string);
+            }
             object->string = NULL;
         }
+        object->type &= ~cJSON_StringIsConst;
 
         status = 0;
         goto cleanup;
